@@ -804,6 +804,142 @@ def run_enumvalue(case):
     return res
 
 
+# ------------------------------------------------------------------ order of first use (fresh FastSerializable classes)
+
+FIRST_PATHS = ["deser", "deser", "kw", "map", "flag"]
+
+
+def gen_firstuse(rng, tier, n_classes):
+    """FastSerializable class trees WITHOUT an explicit create_serializer call whose FIRST instance is made by a
+    shortcut path (trusted deserialization incl. the nested classes it builds, from_trusted_data(None, **kw),
+    from_trusted_data(mapping), trust_supplied_values() + constructor); then x.serialize() of the instance and of
+    every nested instance is compared with (a) the model's fast document of that instance, (b) the same path on an
+    identically declared tree every class of which was first instantiated by the validating constructor,
+    (c) the regular document of the twin when the instance is the validated one"""
+    cases = []
+    for ci in range(n_classes):
+        with_mappers = rng.random() < 0.25
+        bg = BoundaryGen(rng, max_depth=rng.choice([0, 1, 1, 2]), p_mapper=0.6 if with_mappers else 0.0, fast=True)
+        cls = bg.class_decl(0, n_fields=rng.choice([1, 2, 2, 3, 4]))
+        C.fix_accepts(cls)
+        table = {n: m for n, m in bg.mappers.items() if not (isinstance(m, dict) and "complex" in m)}
+        vg = gen.ValGen(rng)
+        kinds = pick_kinds(rng)
+        fd = dict((n, f) for n, f in cls["fields"])
+        for _ in range(2):
+            kw = vg.valid_kw(cls)
+            if kw is gen.NOVALUE:
+                continue
+            if not cls["required"] and rng.random() < 0.15:
+                kw = []                     # an instance made from no values at all
+            doc = S.dedupe_doc({"m": [[k, S.to_doc(fd.get(k), v)] for k, v in kw]})
+            doc = map_doc(cls, doc, table, ())
+            for path in sorted(set(rng.sample(FIRST_PATHS, 2))):
+                cases.append({"suite": "shortcut", "mode": "firstuse", "cls": cls, "kw": kw, "doc": doc, "path": path,
+                              "serializeNone": False, "compact": False, "nonFast": [], "enumKinds": kinds,
+                              "mappers": [[n, wire_mapper(m)] for n, m in sorted(table.items())], "mapperSpec": table,
+                              "stream": "first-use:" + path, "re": gen.re_table(cls, kw)})
+    return cases
+
+
+def _fast_docs(x, ctx):
+    """x.serialize() of a FastSerializable instance and of every FastSerializable instance reachable from it
+    (attributes in field order, elements of lists / tuples / deques / dict values in order, sets by canonical form)"""
+    out = []
+
+    def visit(v, depth=0):
+        if depth > 6:
+            return
+        if isinstance(v, Structure):
+            if isinstance(v, FastSerializable):
+                nv = not [k for k in v.__dict__ if not k.startswith("_")]
+                try:
+                    out.append({"ok": dump.canon(_sort_doc(_dumpv(v.serialize(), ctx))), "nv": nv})
+                except Exception as e:
+                    out.append({"err": C.err_name(e), "msg": str(e)[:160], "nv": nv})
+            for n in v.__class__.get_all_fields_by_name():
+                visit(v.__dict__.get(n), depth + 1)
+        elif isinstance(v, (list, tuple)) or type(v).__name__ == "deque":
+            for e in v:
+                visit(e, depth + 1)
+        elif isinstance(v, dict):
+            for e in v.values():
+                visit(e, depth + 1)
+        elif isinstance(v, (set, frozenset)):
+            sub = []
+            for e in v:
+                k = len(out)
+                visit(e, depth + 1)
+                sub.append(out[k:])
+                del out[k:]
+            for part in sorted(sub, key=lambda r: json.dumps(r, sort_keys=True, default=str)):
+                out.extend(part)
+    visit(x)
+    return out
+
+
+def run_firstuse(case):
+    decl, table, path = case["cls"], case.get("mapperSpec") or {}, case["path"]
+    ctxs = [make_ctx(case) for _ in range(3)]
+    try:
+        F1 = build_tree(decl, ctxs[0], table, fast=True)
+        F2 = build_tree(decl, ctxs[1], table, fast=True)
+        P = build_tree(decl, ctxs[2], table)
+    except Exception as e:
+        return {"unbuildable": f"class: {type(e).__name__}: {e}"}
+    bad = _check_class(P, decl, ctxs[2]) or _check_class(F1, decl, ctxs[0])
+    if bad:
+        return bad
+    res = {"cls_actual": C.fix_accepts(dump.dump_class(P, ctxs[2], order="definition"))}
+    try:
+        p = P(**{k: dump.load_value(v, ctxs[2]) for k, v in case["kw"]})
+        F2(**{k: dump.load_value(v, ctxs[1]) for k, v in case["kw"]})     # tree 2: every class validated first
+    except Exception as e:
+        return {"unbuildable": f"instance: {type(e).__name__}: {e}"}      # (incl. classes without a fast serializer)
+
+    def make(F, ctx):
+        if path == "deser":
+            return Deserializer(F).deserialize(dump.load_value(case["doc"], ctx), direct_trusted_mapping=True)
+        kw = {k: dump.load_value(v, ctx) for k, v in case["kw"]}
+        if path == "kw":
+            return F.from_trusted_data(None, **kw)
+        if path == "map":
+            return F.from_trusted_data(kw)
+        F.trust_supplied_values(True)
+        try:
+            return F(**kw)
+        finally:
+            F.trust_supplied_values(False)
+    try:
+        a = make(F1, ctxs[0])
+    except Exception as e:
+        res["path_err"] = f"{C.err_name(e)}: {e}"[:200]       # the shortcut itself fails: modes trusted / construct
+        return res
+    try:
+        b = make(F2, ctxs[1])
+    except Exception as e:
+        res["path_err2"] = f"{C.err_name(e)}: {e}"[:200]
+        return res
+    res["x"] = _dumpv(a, ctxs[0])
+    res["created"] = True
+    # (an ineligible class is deserialized by the regular path; the class-level flag of path "flag" is reset by now)
+    res["used_trusted"] = path != "deser" or bool(a.used_trusted_instantiation())
+    res["same_as_validated"] = dump.canon(res["x"]) == dump.canon(_dumpv(p, ctxs[2]))
+    snap = json.dumps(dump.canon(res["x"]), sort_keys=True)
+    try:
+        res["fast"] = {"ok": _dumpv(a.serialize(), ctxs[0])}
+    except Exception as e:
+        res["fast"] = {"err": C.err_name(e), "msg": str(e)[:200]}
+    if res["same_as_validated"]:
+        res["regular"] = _ser(p, ctxs[2])
+    res["docs_first"] = _fast_docs(a, ctxs[0])
+    res["docs_warm"] = _fast_docs(b, ctxs[1])
+    res["inst_unchanged"] = snap == json.dumps(dump.canon(_dumpv(a, ctxs[0])), sort_keys=True)
+    res["no_values"] = not [k for k in a.__dict__ if not k.startswith("_")]
+    return res
+
+
+
 def _unordered(doc):
     """serialized document with arrays as sorted reprs (Set fields) — good enough for enum names / values"""
     if isinstance(doc, dict):
@@ -817,7 +953,7 @@ def gen_cases(rng, tier, scale=1.0):
     q = tier == "quick"
     n = int((450 if q else 6000) * scale)
     return (gen_trusted(rng, tier, n) + gen_construct(rng, tier, int(n * 0.35)) + gen_fast(rng, tier, int(n * 0.5))
-            + gen_enumvalue(rng, tier, int(n * 0.25)))
+            + gen_enumvalue(rng, tier, int(n * 0.25)) + gen_firstuse(rng, tier, int(n * 0.3)))
 
 
 # ------------------------------------------------------------------ real code
@@ -1040,14 +1176,14 @@ def run_fast(case):
 
 def run_impl(case):
     return {"trusted": run_trusted, "construct": run_construct, "fast": run_fast,
-            "enumvalue": run_enumvalue}[case["mode"]](case)
+            "enumvalue": run_enumvalue, "firstuse": run_firstuse}[case["mode"]](case)
 
 
 # ------------------------------------------------------------------ driver line
 
 def line(case, impl):
-    l = {"suite": "shortcut", "mode": case["mode"], "cls": impl.get("cls_actual", case["cls"]), "re": case.get("re", []),
-         "mappers": case.get("mappers", [])}
+    l = {"suite": "shortcut", "mode": "fast" if case["mode"] == "firstuse" else case["mode"],
+         "cls": impl.get("cls_actual", case["cls"]), "re": case.get("re", []), "mappers": case.get("mappers", [])}
     if case["mode"] == "enumvalue":
         return {"suite": "shortcut", "mode": "oracle", "cls": case["cls"]}
     if case["mode"] == "trusted":
@@ -1063,6 +1199,8 @@ def line(case, impl):
         l["compact"] = case["compact"]
         l["nonFast"] = case.get("nonFast", [])
         l["jsonEnums"] = sorted(n for n, k in (case.get("enumKinds") or {}).items() if k != "plain")
+        if case["mode"] == "firstuse":
+            l["firstUse"] = bool(impl.get("used_trusted"))
     return l
 
 
@@ -1114,6 +1252,11 @@ def tags(case, impl, model):
         m = (model or {}).get("out", model) or {}
         if isinstance(m, dict) and "tsafe" in m:
             out.append("proved-region:" + str(bool(m.get("tsafe") and m.get("plain") and not case.get("mapperSpec"))))
+            if case.get("mapperSpec"):
+                out.append("proved-region-with-mappers:" + str(bool(
+                    m.get("tsafe") and m.get("plainMapped") and m.get("simpleMappers") and not m.get("cascade")
+                    and not m.get("baseChain") and m.get("verdict") in ("flat", "nested")
+                    and "ok" in (m.get("regularMapped") or {}))))
     elif case["mode"] == "fast":
         out.append("created:" + str(impl.get("created")))
         if "fast_inst_err" in impl:
